@@ -218,6 +218,24 @@ func scanProbes(prng *kit.Rand, state map[string][]byte, allKeys [][]byte, where
 			}
 			res.Probe("seek_in_range")
 		}
+		if prng.Bool(0.5) {
+			// the iterator has been used before: it stands somewhere, or is exhausted
+			for n := prng.Range(1, 3); n > 0; n-- {
+				switch prng.Intn(4) {
+				case 0:
+					it.SeekToFirst()
+				case 1:
+					it.Seek(pickKey())
+				case 2:
+					it.SeekToLast()
+				default:
+					for j := prng.Intn(4); j > 0 && it.Valid(); j-- {
+						it.Next()
+					}
+				}
+			}
+			res.Probe("seek_on_a_used_iterator")
+		}
 		it.Seek(t)
 		steps := 0
 		for it.Valid() && it.IsTombstone() && steps < 100000 {
@@ -651,6 +669,6 @@ func TestC05(t *testing.T) {
 			return out
 		},
 		Strip: func(c ScanCase) any { d := c; d.Sched = kit.Sched{}; return d },
-		Rule:  "mode seq: programmes that spread versions and deletion markers over the active table, immutable tables and SSTables (log files retired after a double flush so that, after a reopen, tables are the only copy), with scan probes on the engine and inside transactions with buffered writes overlaid: full / range [a,b) / prefix / suffix / limit scans, Seek(t) (smallest live key >= t) and SeekToLast, targets present, absent, between keys and out of range; mode conc: a scanner task against 1-3 writer tasks that put/delete other keys and flush/compact: every scan strictly ascending, duplicate-free, containing every untouched key with its value and nothing never written. non-trivial: seq = >=1 probe, >=2 write steps and >=1 SSTable; conc = >=1 scan started while a writer was active",
+		Rule:  "mode seq: programmes that spread versions and deletion markers over the active table, immutable tables and SSTables (log files retired after a double flush so that, after a reopen, tables are the only copy), with scan probes on the engine and inside transactions with buffered writes overlaid: full / range [a,b) / prefix / suffix / limit scans, Seek(t) (smallest live key >= t) and SeekToLast, targets present, absent, between keys and out of range, in half of the probes on an iterator that has been positioned 1-3 times before (SeekToFirst, Seek, SeekToLast, a few Next); mode conc: a scanner task against 1-3 writer tasks that put/delete other keys and flush/compact: every scan strictly ascending, duplicate-free, containing every untouched key with its value and nothing never written. non-trivial: seq = >=1 probe, >=2 write steps and >=1 SSTable; conc = >=1 scan started while a writer was active",
 	})
 }
